@@ -427,6 +427,9 @@ func (p *Prog) ResolveCall(f *Func, e ast.Expr) (*ast.CallExpr, int, bool) {
 			}
 			d, ok := p.SingleDef(f, o)
 			if !ok {
+				d, ok = p.reachingDef(f, x, o)
+			}
+			if !ok {
 				return nil, 0, false
 			}
 			if c, ok := unparen(d.Rhs).(*ast.CallExpr); ok {
@@ -492,4 +495,85 @@ func Chain(via map[*Func]*CallEdge, f *Func) string {
 		s += n
 	}
 	return s
+}
+
+// reachingDef finds the definition of o that reaches the use `use` on every
+// path: the latest assignment to o earlier in the same CFG block, or in the
+// chain of unique predecessors. Used for re-assigned variables such as err.
+func (p *Prog) reachingDef(f *Func, use *ast.Ident, o types.Object) (VarDef, bool) {
+	g := p.CFG(f)
+	loc, ok := g.Locate(use)
+	if !ok {
+		return VarDef{}, false
+	}
+	defIn := func(n ast.Node) (VarDef, bool) {
+		switch x := n.(type) {
+		case *ast.AssignStmt:
+			for i, l := range x.Lhs {
+				id, ok := unparen(l).(*ast.Ident)
+				if !ok || p.ObjOf(id) != o {
+					continue
+				}
+				d := VarDef{Node: x}
+				if len(x.Rhs) == len(x.Lhs) {
+					d.Rhs = x.Rhs[i]
+				} else if len(x.Rhs) == 1 {
+					d.Rhs, d.Index = x.Rhs[0], i
+				}
+				if x.Tok != token.ASSIGN && x.Tok != token.DEFINE {
+					return VarDef{}, false
+				}
+				return d, d.Rhs != nil
+			}
+		case *ast.ValueSpec:
+			for i, id := range x.Names {
+				if p.ObjOf(id) != o {
+					continue
+				}
+				d := VarDef{Node: x}
+				if len(x.Values) == len(x.Names) {
+					d.Rhs = x.Values[i]
+				} else if len(x.Values) == 1 {
+					d.Rhs, d.Index = x.Values[0], i
+				}
+				return d, d.Rhs != nil
+			}
+		}
+		return VarDef{}, false
+	}
+	mentionsAssign := func(n ast.Node) bool {
+		found := false
+		ast.Inspect(n, func(x ast.Node) bool {
+			switch y := x.(type) {
+			case *ast.FuncLit:
+				return false
+			case *ast.AssignStmt:
+				for _, l := range y.Lhs {
+					if id, ok := unparen(l).(*ast.Ident); ok && p.ObjOf(id) == o {
+						found = true
+					}
+				}
+			}
+			return true
+		})
+		return found
+	}
+	b, i := loc.B, loc.I-1
+	for hops := 0; hops < 6; hops++ {
+		for ; i >= 0; i-- {
+			n := b.Nodes[i]
+			if d, ok := defIn(n); ok {
+				return d, true
+			}
+			if mentionsAssign(n) {
+				return VarDef{}, false
+			}
+		}
+		if len(b.Preds) != 1 {
+			return VarDef{}, false
+		}
+		b = b.Preds[0].From
+		i = len(b.Nodes) - 1
+	}
+	return VarDef{}, false
 }
